@@ -18,6 +18,7 @@ const (
 	ClassPtrImpl     = "pointer-to-implementer"            // *T with T implementing Message/custom: interface conversion panic
 	ClassFixedPtr    = "fixed-tag-on-pointer-field"        // fixed32/fixed64 tag on *uint32/*float32/*uint64/*float64: pointer slot used as the scalar
 	ClassModCollide  = "field-numbers-congruent-mod-65536" // field numbers are truncated to 16 bits
+	ClassNilBoolPtr  = "nil-bool-pointer-written-as-false" // a nil *bool is written as 0x00 and comes back as a pointer to false
 	ClassMapEntryLen = "map-entry-length-varint-boundary"  // Size computes the entry length varint from keySize+valSize without the tags
 )
 
